@@ -8,6 +8,7 @@ Hypothesis stops at the first failure, which would hide every root cause behind 
   * an unlisted violation is shrunk and recorded, its bucket (clause, features) is then *ignored* and the search
     is restarted with the remaining example budget (up to `max_rounds` buckets per drive call).
 """
+import os
 import time
 from typing import Any, Callable, List, Optional, Set, Tuple
 
@@ -25,7 +26,12 @@ class _Fail(Exception):
 def drive(strategy: Any, check: Callable[[Any], List[Any]], acc: Acc, *, max_examples: int,
           seed: int, budget_s: Optional[float] = None, shrink: bool = True,
           to_case: Callable[[Any], Any] = lambda c: c, max_rounds: int = 6) -> None:
-    t_end = None if budget_s is None else time.time() + budget_s
+    if budget_s is None:
+        # a shard normally takes seconds to minutes; against a change that makes the proxy spin, every case runs to its iteration
+        # budget and a shard could take hours: stop generating after a generous wall-clock allowance (recorded as budget_hit in
+        # the evidence; what was not explored is inconclusive, never a violation)
+        budget_s = float(os.environ.get('VF_SHARD_BUDGET_S') or (1200 if os.environ.get('VF_TIER', 'quick') == 'quick' else 4 * 3600))
+    t_end = time.time() + budget_s
     ignore: Set[Tuple[str, str]] = set()
     remaining = max_examples
     for rnd in range(max_rounds):
